@@ -229,6 +229,17 @@ def check_against_pypdf_algorithms(reader, enc):
     from pypdf._encryption import AlgV4
     e = reader.trailer["/Encrypt"]
     rev, length = int(e["/R"]), int(e.get("/Length", 40))
+    cf = enc.get("crypt_filter")
+    if cf is not None:
+        nm = "/" + cf.get("name", "StdCF")
+        assert e["/StmF"] == nm and e["/StrF"] == nm and list(e["/CF"].keys()) == [nm], "crypt filter names"
+        assert e["/CF"][nm]["/CFM"] == "/" + cf["cfm"] and e["/CF"][nm]["/AuthEvent"] == "/DocOpen", "crypt filter dictionary"
+        assert (int(e["/V"]), rev, length, int(e["/CF"][nm]["/Length"])) == ((5, 5, 256, 32) if cf["cfm"] == "AESV3" else (4, 4, 128, 16)), \
+            "version / revision / key length"
+        if rev == 5:
+            # /U /UE /O /OE /Perms were verified by pypdf's AlgV5 in decrypt() (a /Perms mismatch is a logged warning)
+            assert [len(bytes(e[k].original_bytes)) for k in ("/U", "/O", "/UE", "/OE", "/Perms")] == [48, 48, 32, 32, 16], "V5 value sizes"
+            return
     id0 = bytes(reader.trailer["/ID"][0].original_bytes)
     user, owner = enc.get("user", ""), enc.get("owner", "")
     o_key = AlgV4.compute_O_value_key((owner or user).encode("latin-1"), rev, length)
@@ -239,7 +250,7 @@ def check_against_pypdf_algorithms(reader, enc):
     mine = bytes(e["/U"].original_bytes)
     n = 32 if rev == 2 else 16
     assert u_val[:n] == mine[:n], "/U differs from pypdf's Algorithm 4/5"
-    assert (rev, length) == ((2, 40) if enc.get("algorithm") == "RC4-40" else (3, 128)), "revision / key length"
+    assert (rev, length) == ((2, 40) if enc.get("algorithm") == "RC4-40" else (3 if cf is None else 4, 128)), "revision / key length"
 
 
 # ----------------------------------------------------------------------------------------------------------------------
@@ -386,6 +397,18 @@ def main():
         run_case("pdf:p[%s,user='',owner='']" % alg, terms["p"], images, {"encrypt": {"user": "", "owner": "", "algorithm": alg}})
         run_case("pdf:p[%s,user='u']" % alg, terms["p"], images,
                  {"encrypt": {"user": "u", "owner": "o", "algorithm": alg}}, expect_encrypted_error=True)
+    # crypt-filter forms: pypdf (the validator) has no AES here; the library's pure-Python AES is patched in for the validation -
+    # the writer itself encrypts with the independent verif.ref.aes, so validator and writer do not share an implementation
+    from sharepoint2text.parsing.extractors.pdf._pypdf_aes_fallback import patch_pypdf_fallback_aes
+    patch_pypdf_fallback_aes()
+    for cfm in ("V2", "AESV2", "AESV3"):
+        for cfn in ("StdCF", "VerifCF"):
+            for name in ("p", "meta", "img-2pages", "multiunit-empty-middle"):
+                run_case("pdf:%s[crypt-filter %s /%s,user='']" % (name, cfm, cfn), terms[name], images,
+                         {"encrypt": {"user": "", "owner": "x", "algorithm": "RC4-128", "crypt_filter": {"name": cfn, "cfm": cfm}}})
+            run_case("pdf:p[crypt-filter %s /%s,user='u']" % (cfm, cfn), terms["p"], images,
+                     {"encrypt": {"user": "u", "owner": "o", "algorithm": "RC4-128", "crypt_filter": {"name": cfn, "cfm": cfm}}},
+                     expect_encrypted_error=True)
     for alg in ("AES-128", "AES-256"):
         expect_raises("pdf:encrypt[%s]" % alg, terms["p"], images, {"encrypt": {"user": "", "owner": "x", "algorithm": alg}})
     expect_raises("pdf:tab", D([P("Bx", ["tab"], "By")]))
